@@ -19,10 +19,13 @@ var table = map[string]struct {
 	"C01": {"model_checking", checks.C01},
 	"C02": {"model_checking", checks.C02},
 	"C03": {"model_checking", checks.C03},
+	"C04": {"model_checking", checks.C04},
 	"C06": {"model_checking", checks.C06},
 	"C08": {"model_checking", checks.C08},
 	"C10": {"model_checking", checks.C10},
 	"C13": {"model_checking", checks.C13},
+	"C14": {"fault_enumeration", checks.C14},
+	"C15": {"fault_enumeration", checks.C15},
 	"C11": {"model_checking", checks.C11},
 }
 
